@@ -36,6 +36,18 @@ CHECKS = {
         note="Bounded: histories <=4 calls (model invariants to depth 7); built-ins abstracted to L, La, Ls, R, K; TLC and the replay driver are trusted.",
         technique="TLA+ spec (Registry.tla) + TLC exhaustive BFS; spec->code replay of every history with per-step comparison of all registry observations",
     ),
+    "C01": dict(
+        text="specs/Impedance.tla grows every circuit up to the bounds with a builder state machine over leaves with exact semantics "
+             "(R 0/1/2/inf, C, L), evaluates the composition law (exact Gaussian rationals with an infinite value) and a transcription "
+             "of the library's vectorised Series/Parallel evaluation incl. its open/short index bookkeeping on every frequency vector, "
+             "and TLC checks law = implementation and array = pointwise in every complete state. Every complete circuit is replayed: "
+             "built from objects, via parse_cdc and via CircuitBuilder, evaluated through Circuit/Connection.get_impedances and "
+             "simulate_spectrum as an array and one frequency at a time, and compared with the law's exact value. Random circuits "
+             "over every registered element type are compared with an independent pointwise composition.",
+        design_ref="§4 C01",
+        note="Bounded: <=4 leaves, depth <=3, w in {1,2}; exact semantics for R/C/L leaves only (other types opaque); the exact-resonance array raise is a recorded known finding.",
+        technique="TLA+ spec (Impedance.tla) + TLC exhaustive BFS over builder states; spec->code replay of every circuit x frequency vector against the law's exact values",
+    ),
     "C03": dict(
         text="specs/CDC.tla models the scanner (character level), the shift/reduce parser with its shared stack, exact decimal "
              "arithmetic and the printer; specs/CDCRound.tla enumerates (generator tree, spelling options) pairs - connection shapes, "
